@@ -350,6 +350,32 @@ class Interp:
                     for s2, b in rv:
                         if b.kind == "tuple" and all(x.kind == "const" for x in b.val):
                             b = const(tuple(x.val for x in b.val))  # a display of constants is a constant
+                        if (self.rule.wants_compose and isinstance(op, (ast.Eq, ast.NotEq)) and a.kind == "tuple" and b.kind == "tuple"
+                                and len(a.val) == len(b.val) > 0):
+                            # two tuples held in variables: equal iff their components are, decided one by one (like the display form)
+                            cur2 = [(s2, True)]
+                            for x_, y_ in zip(a.val, b.val):
+                                nxt2 = []
+                                for s4, alive in cur2:
+                                    if not alive:
+                                        nxt2.append((s4, False))
+                                        continue
+                                    k_ = self._cmp_known(s4, node, ast.Eq(), x_, y_)
+                                    if isinstance(k_, list):
+                                        nxt2 += [(s5, bool(v5)) for s5, v5 in k_]
+                                    elif k_ is not None:
+                                        nxt2.append((s4, bool(k_)))
+                                    else:
+                                        for t_ in (True, False):
+                                            s5 = s4.copy()
+                                            self._cmp_memo(s5, ast.Eq(), x_, y_, t_)
+                                            nxt2.append((s5, t_))
+                                cur2 = nxt2
+                            for s4, eq_ in cur2:
+                                v_ = eq_ if isinstance(op, ast.Eq) else not eq_
+                                self._record(s4, node, v_, True)
+                                out.append((s4, v_))
+                            continue
                         known = self._cmp_known(s2, node, op, a, b)
                         if isinstance(known, list):  # the rule forked the comparison itself: [(state, truth-of-node)]
                             out += known
